@@ -23,6 +23,7 @@ ASSUMPTIONS = [
 UNIT_TIMEOUT = {"quick": 150, "thorough": 2400}
 
 COMMON = dict(
+    p_equal_values=0.2,
     struct_depth_choices=[1, 2, 2, 3, 4, 5],
     p_item_fault=0.03,
     p_wrap=0.7,
